@@ -2,7 +2,7 @@
    Only statements here.  What is provable is the guarding of partial Python operations by
    the declared call modes; GenModes.v is regenerated from problog/engine_builtin.py on every run. *)
 From Coq Require Import ZArith List Bool String Ascii.
-From PL.C27 Require Import ModelTerms GenModes ModelModes ProofsModes.
+From PL.C27 Require Import ModelTerms GenModes ModelModes ProofsModes ModelBuiltins ProofsBuiltins.
 Import ListNotations.
 Open Scope string_scope.
 
@@ -54,6 +54,98 @@ Theorem C27_list_tail_loop : forall t,
 Proof. exact list_tail_unfold. Qed.
 Print Assumptions C27_list_tail_loop.
 
+(* ------------------------------------------------------------------------------------------------
+   MODE SAFETY.  Bodies are modelled over partial primitives (int_of, attr_ok, nth_error, call_term, aeval)
+   that yield `OStuck <exception>` outside their Python domain; each body starts with the check_mode call of
+   the TRANSLATED site, so "for all argument tuples the body is not stuck" says: whenever the declared modes
+   accept (first match i), branch i of the body performs no partial operation outside its domain; otherwise
+   the outcome is CallModeError.  Arity is fixed by the (translated and live-compared) registration table. *)
+
+(* the hand models account for exactly the partial primitives that occur in the source now *)
+Theorem C27_prims_inventory : prims_accounted = true.
+Proof. vm_compute. reflexivity. Qed.
+Print Assumptions C27_prims_inventory.
+
+Theorem C27_mode_safe_between : forall low high value, is_stuck (body_between [low; high; value]) = false.
+Proof. exact between_safe. Qed.
+Print Assumptions C27_mode_safe_between.
+
+Theorem C27_mode_safe_succ : forall a b, is_stuck (body_succ [a; b]) = false.
+Proof. exact succ_safe. Qed.
+Print Assumptions C27_mode_safe_succ.
+
+Theorem C27_mode_safe_plus : forall a b c, is_stuck (body_plus [a; b; c]) = false.
+Proof. exact plus_safe. Qed.
+Print Assumptions C27_mode_safe_plus.
+
+(* length/2 -- the full statement `forall l n, is_stuck (body_length [l; n]) = false` is FALSE while the source does
+   `raise UnifyError()` for a requested length below the known prefix (Findings.v: length(L,-1)); guarded: *)
+Theorem C27_mode_safe_length_partial : forall l n, length_guard l n = true -> is_stuck (body_length [l; n]) = false.
+Proof. exact length_safe. Qed.
+Print Assumptions C27_mode_safe_length_partial.
+
+Theorem C27_mode_safe_functor : forall t f a, is_stuck (body_functor [t; f; a]) = false.
+Proof. exact functor_safe. Qed.
+Print Assumptions C27_mode_safe_functor.
+
+Theorem C27_mode_safe_arg : forall i t a, is_stuck (body_arg [i; t; a]) = false.
+Proof. exact arg_safe. Qed.
+Print Assumptions C27_mode_safe_arg.
+
+Theorem C27_mode_safe_univ : forall t parts, is_stuck (body_split_call [t; parts]) = false.
+Proof. exact split_call_safe. Qed.
+Print Assumptions C27_mode_safe_univ.
+
+(* compare/3 and sort/2: only the attribute accesses / tuple index of the body; struct_cmp and sorted() are C15's *)
+Theorem C27_mode_safe_compare_partial : forall c a b, is_stuck (body_compare [c; a; b]) = false.
+Proof. exact compare_safe. Qed.
+Print Assumptions C27_mode_safe_compare_partial.
+
+Theorem C27_mode_safe_sort_partial : forall l s, is_stuck (body_sort [l; s]) = false.
+Proof. exact sort_safe. Qed.
+Print Assumptions C27_mode_safe_sort_partial.
+
+Theorem C27_mode_safe_nocache : forall f a, is_stuck (body_nocache [f; a]) = false.
+Proof. exact nocache_safe. Qed.
+Print Assumptions C27_mode_safe_nocache.
+
+(* the type tests var/atom/atomic/compound/float/integer/nonvar/number/simple/callable/ground/is_list/... never raise *)
+Theorem C27_type_tests_total : forall name p t, In (name, p) type_tests -> p t <> None.
+Proof. exact type_tests_total. Qed.
+Print Assumptions C27_type_tests_total.
+
+(* GUARDED statements: the unguarded ones are refuted in Findings.v *)
+(* atom_number/2 -- full statement `forall a n, is_stuck (body_atom_number [a; n]) = false` is FALSE (Findings.v):
+   mode "av" admits the atoms inf / nan / infinity (any case, optional sign) on which round(float(..)) raises.
+   Guard: the atom is not such a spelling (and then the model makes no claim about numeral syntax: OUnknown). *)
+Theorem C27_mode_safe_atom_number_partial : forall a n,
+  (forall f args, a = PApp f args -> special_float f = None) -> is_stuck (body_atom_number [a; n]) = false.
+Proof. exact atom_number_safe. Qed.
+Print Assumptions C27_mode_safe_atom_number_partial.
+
+(* numbervars/3 -- mode "*i*" admits an unbound first argument, the body calls term.apply (refuted in Findings.v) *)
+Theorem C27_mode_safe_numbervars_partial : forall t s o, is_nonvar_b t = true -> is_var_b o = true ->
+  is_stuck (body_numbervars [t; s; o]) = false.
+Proof. exact numbervars_safe. Qed.
+Print Assumptions C27_mode_safe_numbervars_partial.
+
+(* is/2 and the six arithmetic comparisons -- mode 'g' (ground) admits strings (TypeError) and float overflow
+   (OverflowError): refuted in Findings.v / found by the search.  Proved: on the integer fragment (integer constants
+   under the operators whose Python lambdas are pinned by the translator) evaluation yields an integer or
+   ArithmeticError (division by zero, negative shift), never another exception. *)
+Theorem C27_is_safe_int_fragment_partial : forall a b, int_fragment b = true -> is_stuck (body_is [a; b]) = false.
+Proof. exact is_safe_int_fragment. Qed.
+Print Assumptions C27_is_safe_int_fragment_partial.
+
+Theorem C27_compare_safe_int_fragment_partial : forall pyname a b, In pyname cmp_names ->
+  int_fragment a = true -> int_fragment b = true -> is_stuck (body_cmp pyname [a; b]) = false.
+Proof. exact cmp_safe_int_fragment. Qed.
+Print Assumptions C27_compare_safe_int_fragment_partial.
+
+Theorem C27_aeval_int_fragment : forall t, int_fragment t = true -> (exists z, aeval t = AV (VI z)) \/ aeval t = AErr.
+Proof. exact aeval_int_fragment. Qed.
+Print Assumptions C27_aeval_int_fragment.
+
 (* non-vacuity *)
 Example C27_ex_between_enum : check_mode [PInt 1; PApp "'-'" [PInt 3]; PSlot (-1)] ["iii"; "iiv"] = Accept 1.
 Proof. vm_compute. reflexivity. Qed.
@@ -63,3 +155,19 @@ Example C27_ex_length_first : check_mode [PApp "[]" []; PInt 0] ["LI"; "Lv"; "lI
 Proof. vm_compute. reflexivity. Qed.
 Example C27_ex_unknown_letter : check_mode [PInt 1] ["z"] = ModeStuck.
 Proof. vm_compute. reflexivity. Qed.
+Example C27_ex_between_enum_body : body_between [PInt 1; PInt 3; PSlot (-1)]
+  = ORes [[PInt 1; PInt 3; PInt 1]; [PInt 1; PInt 3; PInt 2]; [PInt 1; PInt 3; PInt 3]].
+Proof. vm_compute. reflexivity. Qed.
+Example C27_ex_between_cme : body_between [PInt 1; PApp "inf" []; PSlot (-1)] = OCallModeError.
+Proof. vm_compute. reflexivity. Qed.
+Example C27_ex_univ : body_split_call [PSlot (-1); PApp "." [PApp "foo" []; PApp "." [PInt 1; PApp "[]" []]]]
+  = ORes [[PApp "foo" [PInt 1]; PApp "." [PApp "foo" []; PApp "." [PInt 1; PApp "[]" []]]]].
+Proof. vm_compute. reflexivity. Qed.
+Example C27_ex_is_div0 : body_is [PSlot (-1); PApp "'//'" [PInt 1; PInt 0]] = OArithError.
+Proof. vm_compute. reflexivity. Qed.
+Example C27_ex_is_int : int_fragment (PApp "'+'" [PInt 1; PApp "'*'" [PInt 2; PApp "'-'" [PInt 3]]]) = true
+  /\ body_is [PSlot (-1); PApp "'+'" [PInt 1; PApp "'*'" [PInt 2; PApp "'-'" [PInt 3]]]]
+     = ORes [[PInt (-5); PApp "'+'" [PInt 1; PApp "'*'" [PInt 2; PApp "'-'" [PInt 3]]]]].
+Proof. split; vm_compute; reflexivity. Qed.
+Example C27_ex_atom_number_guard : special_float "foo" = None /\ special_float "-Inf" = Some (FInf false).
+Proof. split; vm_compute; reflexivity. Qed.
